@@ -1,5 +1,6 @@
 import Girc.Base.AMap
 import Girc.Base.GoLib
+import Girc.Base.GoSem
 import Girc.Model.Names
 /-
   Model of modes.go: CModes (NewCModes, hasArg, Parse, Apply, String, HasMode, Get), Perms,
@@ -16,22 +17,8 @@ structure Perms where
   voice : Bool := false
   deriving DecidableEq, Repr, Inhabited
 
-structure CMode where
-  add : Bool
-  name : Byte
-  setting : Bool
-  args : Bytes
-  deriving DecidableEq, Repr
-
-structure CModes where
-  raw : Bytes
-  listArgs : Bytes      -- CHANMODES class A
-  argsM : Bytes         -- class B
-  setArgs : Bytes       -- class C
-  noArgs : Bytes        -- class D
-  prefixes : Bytes      -- PREFIX mode letters
-  modes : List CMode
-  deriving DecidableEq, Repr
+-- `CMode` and `CModes` are declared (under these same names) in Girc/Base/GoSem.lean, shared with the generated
+-- Gen/Funcs.lean.
 
 /-- `strings.SplitN(s, ",", 4)` padded with "" to four pieces. -/
 def splitN4 (s : Bytes) : Bytes × Bytes × Bytes × Bytes :=
